@@ -394,7 +394,14 @@ class VecGen:
                 st = c if (c == INT or rng.random() < 0.8) else INT
                 args.append(self.scalar_expr(st, env, max(depth + 1, self.cfg.max_depth - 1), allow_calls))
             else:
-                args.append(self.expr(vec(c, k), env, max(depth + 1, self.cfg.max_depth), allow_calls))
+                # now and then a vector part of the other component type (converted component by component)
+                r = rng.random()
+                vc = c
+                if c == FLOAT and r < 0.15:
+                    vc = INT
+                elif c == INT and r < 0.06:
+                    vc = FLOAT
+                args.append(self.expr(vec(vc, k), env, max(depth + 1, self.cfg.max_depth), allow_calls))
             left -= k
         return Construct(t, args)
 
